@@ -207,7 +207,7 @@ func (rangeEngine) Run(ctx *fw.Ctx, cs any) {
 	r.m = model.NewLease4(start, r.end)
 	r.leaseS = c.Lease
 	r.lease, _ = time.ParseDuration(c.Lease)
-	everyCP := c.EveryCP || ctx.Focus == "C03"
+	everyCP := (c.EveryCP || ctx.Focus == "C03") && c.N <= 256
 	h, err := r.setup(r.db, start, r.end, r.leaseS)
 	if err != nil {
 		ctx.Viol("C02", "setup-fails-fresh", "Setup4 on a fresh database failed: %v", err)
@@ -230,7 +230,9 @@ func (rangeEngine) Run(ctx *fw.Ctx, cs any) {
 					newEnd += uint32(1 + r.rng.Intn(2))
 				}
 			case 1: // raise the lease time: renewals must extend the stored expiry
-				newLease = (r.lease*2 + time.Hour).String()
+				if r.lease < 200*time.Hour { // stay far below the option's 2^32 s
+					newLease = (r.lease + time.Hour + time.Duration(r.rng.Intn(3600))*time.Second).String()
+				}
 			}
 			h, err := r.setup(r.db, r.m.Start, newEnd, newLease)
 			r.tr("restart range=[%s,%s] lease=%s -> %v", model.U32IP(r.m.Start), model.U32IP(newEnd), newLease, err)
@@ -299,7 +301,7 @@ func (rangeEngine) Run(ctx *fw.Ctx, cs any) {
 			served2 = true
 		}
 		// crash point: copy the database and reopen it with a fresh instance
-		if len(r.m.Bind) > 0 && (everyCP || r.rng.Intn(6) == 0 || i == c.Reqs-1) {
+		if len(r.m.Bind) > 0 && (everyCP || (c.N <= 256 && r.rng.Intn(6) == 0) || (c.N > 256 && r.rng.Intn(400) == 0) || i == c.Reqs-1) {
 			if !r.crashPoint(i) {
 				return
 			}
@@ -392,14 +394,12 @@ func (r *rangeRun) crashPoint(step int) bool {
 		fmt.Sscanf(k, "%d:", &l)
 		hlens[l] = true
 	}
-	var hl []string
 	for l := 0; l <= 16; l++ {
 		if hlens[l] {
-			hl = append(hl, fmt.Sprint(l))
+			ctx.Count(fmt.Sprintf("range.cp_with_hlen.%d", l), 1)
 		}
 	}
 	ctx.Nontrivial("C03", fmt.Sprintf("%s/%d/%d/%d", r.c.Start, r.c.N, r.c.Seed, step))
-	ctx.Count("range.cp_hlen_sets."+strings.Join(hl, ","), 1)
 
 	// (1) rows: one per binding, expiry not earlier than promised
 	rows, err := readLeases(cp)
